@@ -31,7 +31,7 @@ def jobs(tier, seed):
     alphabet = BOUNDS[tier]["alphabet"]
     za = alphabet + [0, 0]
     out = []
-    n = 150 if tier == "quick" else 2500
+    n = 300 if tier == "quick" else 10000
     for i in range(n):
         nv = rng.choice([2, 3] if tier == "quick" else [2, 3, 4, 5])
         names = ["x", "y", "z", "w", "u"][:nv]
@@ -80,7 +80,7 @@ def jobs(tier, seed):
             terms.remove(near)
             cx = [near]
         out.append({"kind": f"list:{plant}:{ctx_mode}", "terms": terms, "ctx": cx, "ctx_shared_const": ctx_mode == "shared", "explicit_none": ctx_mode == "none" and rng.random() < 0.5})
-    nc = 40 if tier == "quick" else 500
+    nc = 80 if tier == "quick" else 2000
     for i in range(nc):
         c = CS.rand_contract(rng, ["x"], ["y"], alphabet, na=(0, 1, 2), ng=(1, 2, 3))
         if rng.random() < 0.5 and c["a"]:
